@@ -885,7 +885,7 @@ func scenarios(r *eng.Run) []*vexp.Scenario {
 			delta = s.thDelta
 		}
 		if s.small && thorough {
-			delta = 40 // effectively unbounded
+			delta = 1 // one more preemption than the base bound (lock releases are scheduling points now: unbounded is out of reach)
 		}
 		out = append(out, &vexp.Scenario{
 			Name: s.name, BoundDelta: delta,
